@@ -263,20 +263,20 @@ def _e1_shards(tier):
 def _l1_shards(tier):
     if tier == "quick":
         return [{"max_depth": 1, "max_component": 9, "text": t} for t in (0, 1)] + [{"max_depth": 2, "max_component": 30, "text": 0}]
-    return [{"max_depth": 1, "max_component": 9, "text": t} for t in (0, 1)] + [{"max_depth": 2, "max_component": 30, "text": t} for t in (0, 1)] + [{"max_depth": 2, "max_component": 99, "text": 0}]
+    return [{"max_depth": 1, "max_component": 9, "text": t} for t in (0, 1)] + [{"max_depth": 2, "max_component": 30, "text": t} for t in (0, 1)]
 
 
 OBLIGATIONS = [
     Ob("L1a", L1a, body_L1a, "S", desc="TaskLevel.fromString(toString(l)) == l", functions=["TaskLevel.toString", "TaskLevel.fromString"],
-       shards={"quick": [{"max_depth": 2, "max_component": 999}], "thorough": [{"max_depth": 3, "max_component": 999}, {"max_depth": 4, "max_component": 99}]},
+       shards={"quick": [{"max_depth": 2, "max_component": 999}], "thorough": [{"max_depth": 3, "max_component": 999}]},
        timeout={"quick": 150, "thorough": 600}, path_timeout=60,
-       bounds={"quick": "levels of depth <= 2, components 1..999 (unbounded integers: z3's int<->str conversion does not terminate)", "thorough": "depth <= 3 with components 1..999 and depth <= 4 with components 1..99"}),
+       bounds={"quick": "levels of depth <= 2, components 1..999 (unbounded integers: z3's int<->str conversion does not terminate)", "thorough": "depth <= 3 with components 1..999"}),
     Ob("L1b", L1b, body_L1b, "S", desc="'<uuid>@<level>' framing: format, ascii encode/decode, split('@') returns the two parts", functions=["Action.serialize_task_id (framing)", "Action.continue_task (decoding)"],
        shards={"quick": [{"text": 0}, {"text": 1}]}, twin=[{"text": 0}], timeout={"quick": 150, "thorough": 400}, path_timeout=60,
        bounds={"quick": "uuid and level strings: any ASCII strings without '@', length <= 5"}),
     Ob("L1", L1, body_L1, "S", desc="serialize_task_id reserves k+1 (then k+2); continue_task(bytes|text) yields an action at level+[k+1] with the same uuid whose start is at level+[k+1,1]", functions=["Action.serialize_task_id", "Action.continue_task", "Action._nextTaskLevel", "TaskLevel.toString/fromString", "Action._start"],
        shards=_l1_shards, timeout={"quick": 150, "thorough": 600}, path_timeout=60,
-       bounds={"quick": "levels of depth <= 1 with components 1..9 (bytes and text ids) and depth <= 2 with components 1..30 (bytes ids); counter 0..max-2", "thorough": "additionally depth <= 2, components 1..99"}),
+       bounds={"quick": "levels of depth <= 1 with components 1..9 (bytes and text ids) and depth <= 2 with components 1..30 (bytes ids); counter 0..max-2", "thorough": "additionally text ids at depth <= 2, components 1..30"}),
     Ob("E1", E1, body_E1, "X", desc="hand-off programs (multi-hop, any point/depth), one file per side, every merge interleaving: one task, remote sub-tree at the reserved position", functions=["Action.serialize_task_id", "Action.continue_task", "FileDestination.__call__", "Parser.parse_stream", "Task.add"],
        shards=_e1_shards, twin=[{"N": 4, "D": 3, "max_lines": 8, "twin_label": "interleaved-merge"}], timeout={"quick": 100, "thorough": 1500},
        bounds={"quick": "programs <= 4 ops with >= 1 hand-off, depth <= 3, <= 8 lines in total, all merges of the sides' files with <= 3 voluntary side switches (per-file order kept)", "thorough": "<= 5 ops / 10 lines, <= 4 switches; text ids; failing remote side"}),
